@@ -654,6 +654,8 @@ type simCluster struct {
 	// new one, which - still "importing, not owner" in its own view - sends commands without ASKING back to the old owner
 	lag    map[int]*simLag
 	logSeq int
+	// the next keyed command that is executed loses its reply: the node closes the connection instead of answering
+	dropNextExec bool
 }
 
 type simLag struct {
@@ -859,6 +861,10 @@ func (nd *simNode) serve(c net.Conn, serial int) {
 			return
 		}
 		reply := nd.handle(v, &asking, serial)
+		if reply == nil {
+			bw.Flush()
+			return // the deferred Close drops the connection without a reply
+		}
 		nd.cl.mu.Lock()
 		d, silent := nd.delayMs, nd.silent
 		if nd.cl.nodesDelayMs > 0 && v.t == '*' && len(v.a) > 0 && asciiLowerB(v.a[0].s) == "cluster" {
@@ -970,6 +976,13 @@ func (nd *simNode) handle(v *wv, asking *bool, serial int) *wv {
 		}
 	}
 	entry.result = "exec"
+	if cl.dropNextExec && !bytes.Contains(key, []byte("bg:key")) && !bytes.HasPrefix(key, []byte("probe")) {
+		// the command is executed, the connection dies before the reply is written
+		cl.dropNextExec = false
+		simExec(nd.store, args)
+		entry.result = "exec-reply-lost"
+		return nil
+	}
 	return simExec(nd.store, args)
 }
 
